@@ -36,9 +36,130 @@ pub enum Mut {
     Varint { at: u16, sel: u8 },
     /// keep the prefix up to `at`, then append the other encoding from `from`
     Splice { at: u16, from: u16 },
+    /// structure-aware: read the bytes as a protobuf tree, pick one length-delimited field (at any depth) and damage only
+    /// its payload, re-encoding the enclosing lengths — the outer message still decodes, an inner multiaddress / CID /
+    /// peer id / key / nested message does not. how: 0 empty, 1 replace by `bytes`, 2 drop last byte, 3 flip first byte,
+    /// 4 flip last byte, 5 append `bytes`, 6 prepend `bytes`
+    Field { pick: u16, how: u8, bytes: Vec<u8> },
 }
 
-fn mut_strategy() -> impl Strategy<Value = Mut> {
+#[derive(Debug, Clone)]
+enum PbNode {
+    Other(Vec<u8>),
+    Len { key: Vec<u8>, payload: Vec<u8>, children: Option<Vec<PbNode>> },
+}
+
+fn pb_varint(b: &[u8], at: &mut usize) -> Option<u64> {
+    let mut v = 0u64;
+    for i in 0..10 {
+        let byte = *b.get(*at)?;
+        *at += 1;
+        v |= ((byte & 0x7f) as u64) << (7 * i);
+        if byte & 0x80 == 0 {
+            return Some(v);
+        }
+    }
+    None
+}
+
+fn pb_parse(b: &[u8], depth: u8) -> Option<Vec<PbNode>> {
+    let mut at = 0usize;
+    let mut out = Vec::new();
+    while at < b.len() {
+        let start = at;
+        let key = pb_varint(b, &mut at)?;
+        if key >> 3 == 0 {
+            return None;
+        }
+        match key & 7 {
+            0 => {
+                pb_varint(b, &mut at)?;
+                out.push(PbNode::Other(b[start..at].to_vec()));
+            }
+            1 => {
+                at = at.checked_add(8).filter(|e| *e <= b.len())?;
+                out.push(PbNode::Other(b[start..at].to_vec()));
+            }
+            5 => {
+                at = at.checked_add(4).filter(|e| *e <= b.len())?;
+                out.push(PbNode::Other(b[start..at].to_vec()));
+            }
+            2 => {
+                let key_bytes = b[start..at].to_vec();
+                let len = pb_varint(b, &mut at)? as usize;
+                let end = at.checked_add(len).filter(|e| *e <= b.len())?;
+                let payload = b[at..end].to_vec();
+                at = end;
+                let children = if depth < 4 && !payload.is_empty() { pb_parse(&payload, depth + 1) } else { None };
+                out.push(PbNode::Len { key: key_bytes, payload, children });
+            }
+            _ => return None,
+        }
+    }
+    Some(out)
+}
+
+fn pb_count(nodes: &[PbNode]) -> usize {
+    nodes.iter().map(|n| match n { PbNode::Other(_) => 0, PbNode::Len { children, .. } => 1 + children.as_ref().map(|c| pb_count(c)).unwrap_or(0) }).sum()
+}
+
+fn pb_damage(nodes: &mut [PbNode], target: &mut usize, how: u8, bytes: &[u8]) -> bool {
+    for n in nodes.iter_mut() {
+        if let PbNode::Len { payload, children, .. } = n {
+            if *target == 0 {
+                match how % 7 {
+                    0 => payload.clear(),
+                    1 => *payload = bytes.to_vec(),
+                    2 => { payload.pop(); }
+                    3 => { if let Some(b) = payload.first_mut() { *b ^= 0x41; } }
+                    4 => { if let Some(b) = payload.last_mut() { *b ^= 0x41; } }
+                    5 => payload.extend_from_slice(bytes),
+                    _ => { payload.splice(0..0, bytes.iter().cloned()); }
+                }
+                *children = None;
+                return true;
+            }
+            *target -= 1;
+            if let Some(c) = children {
+                if pb_damage(c, target, how, bytes) {
+                    return true;
+                }
+            }
+        }
+    }
+    false
+}
+
+fn pb_encode(nodes: &[PbNode]) -> Vec<u8> {
+    let mut out = Vec::new();
+    for n in nodes {
+        match n {
+            PbNode::Other(raw) => out.extend_from_slice(raw),
+            PbNode::Len { key, payload, children } => {
+                let body = match children { Some(c) => pb_encode(c), None => payload.clone() };
+                out.extend_from_slice(key);
+                out.extend(uvarint(body.len() as u64));
+                out.extend(body);
+            }
+        }
+    }
+    out
+}
+
+/// Damages the payload of one length-delimited field of a protobuf encoding (None when the bytes are not a protobuf tree
+/// or have no such field).
+pub fn damage_field(b: &[u8], pick: u16, how: u8, bytes: &[u8]) -> Option<Vec<u8>> {
+    let mut tree = pb_parse(b, 0)?;
+    let n = pb_count(&tree);
+    if n == 0 {
+        return None;
+    }
+    let mut target = pick_idx(pick, n);
+    pb_damage(&mut tree, &mut target, how, bytes);
+    Some(pb_encode(&tree))
+}
+
+pub fn mut_strategy() -> impl Strategy<Value = Mut> {
     prop_oneof![
         3 => (any::<u16>(), 0u8..8).prop_map(|(at, bit)| Mut::Flip { at, bit }),
         2 => (any::<u16>(), prop_oneof![Just(0u8), Just(0xff), Just(0x80), Just(0x7f), any::<u8>()]).prop_map(|(at, val)| Mut::Set { at, val }),
@@ -47,6 +168,7 @@ fn mut_strategy() -> impl Strategy<Value = Mut> {
         2 => any::<u16>().prop_map(|at| Mut::Truncate { at }),
         3 => (any::<u16>(), 0u8..9).prop_map(|(at, sel)| Mut::Varint { at, sel }),
         1 => (any::<u16>(), any::<u16>()).prop_map(|(at, from)| Mut::Splice { at, from }),
+        4 => (any::<u16>(), 0u8..7, prop::collection::vec(any::<u8>(), 0..5)).prop_map(|(pick, how, bytes)| Mut::Field { pick, how, bytes }),
     ]
 }
 
@@ -64,7 +186,7 @@ fn special_varint(sel: u8) -> Vec<u8> {
     }
 }
 
-fn apply(mut b: Vec<u8>, muts: &[Mut], other: &[u8]) -> Vec<u8> {
+pub fn apply(mut b: Vec<u8>, muts: &[Mut], other: &[u8]) -> Vec<u8> {
     for m in muts {
         match m {
             Mut::Flip { at, bit } => {
@@ -103,6 +225,11 @@ fn apply(mut b: Vec<u8>, muts: &[Mut], other: &[u8]) -> Vec<u8> {
                     }
                     e = (e + 1).min(b.len());
                     b.splice(i..e, special_varint(*sel));
+                }
+            }
+            Mut::Field { pick, how, bytes } => {
+                if let Some(nb) = damage_field(&b, *pick, *how, bytes) {
+                    b = nb;
                 }
             }
             Mut::Splice { at, from } => {
@@ -225,7 +352,7 @@ fn record_from(r: &mut SplitMix) -> Record {
 }
 
 /// A valid encoding for the target, built with the library's own encoders.
-fn valid_encoding(target: Target, seed: u64) -> Vec<u8> {
+pub fn valid_encoding(target: Target, seed: u64) -> Vec<u8> {
     let mut r = SplitMix(seed);
     match target {
         Target::MsMessage => {
@@ -763,4 +890,5 @@ pub fn run(ctx: &mut Ctx) {
     ctx.campaign("decoders", CampaignCfg::new(t.pick(300_000, 8_000_000)).shards(16), strategy, run_case);
     ctx.campaign("roundtrip-truncate", CampaignCfg::new(t.pick(6_000, 200_000)).shards(16), rt_strategy, run_rt);
     ctx.campaign("streams", CampaignCfg::new(t.pick(6_000, 200_000)).shards(16), stream_strategy, run_stream);
+    ctx.campaign("rogue-peer", CampaignCfg::new(t.pick(1_600, 40_000)).shards(16).shrink_iters(8), super::c19_rogue::strategy, super::c19_rogue::run_case);
 }
